@@ -363,6 +363,27 @@ def m_abs(it, args, kw):
     return it.call_real(abs, [v], {})
 
 
+def _floor_ceil(up):
+    def m(it, args, kw):
+        import math
+        v = args[0]
+        if isinstance(v, (SInt, SBool)):
+            return mk_int(int_term(v))
+        if isinstance(v, SFloat):
+            if it.float_mode != "real":
+                raise Unsupported("math.floor/ceil of a symbolic float in fp mode")
+            t = v.t
+            fl = z3.ToInt(t)  # z3's to_int is floor
+            return mk_int(-z3.ToInt(-t) if up else fl)
+        return it.call_real(math.ceil if up else math.floor, list(args), kw)
+    return m
+
+
+import math as _math  # noqa: E402
+M.MODELS[_math.floor] = _floor_ceil(False)
+M.MODELS[_math.ceil] = _floor_ceil(True)
+
+
 @model(round)
 def m_round(it, args, kw):
     v = args[0]
